@@ -38,17 +38,23 @@ After(s, ev) ==
 NewOut(s, t) == SubSeq(t.out, Len(s.out) + 1, Len(t.out))
 Completed(s, t) == {r \in Reqs : Len(t.done[r]) > Len(s.done[r])}
 
+\* what request r was handed during the step, as <<kind, message>>
+ItemOf(o) == IF o.why = "endmark" THEN <<"eof", NoMsg>>
+             ELSE IF o.ok THEN <<"ok", o.f>> ELSE <<"err", NoMsg>>
+RECURSIVE MapItems(_)
+MapItems(sq) == IF sq = <<>> THEN <<>> ELSE <<ItemOf(Head(sq))>> \o MapItems(Tail(sq))
+NewDone(s, t, r) == MapItems(SubSeq(t.done[r], Len(s.done[r]) + 1, Len(t.done[r])))
+EvItem(d) == IF d.eof THEN <<"eof", NoMsg>> ELSE IF d.ok THEN <<"ok", d.f>> ELSE <<"err", NoMsg>>
+RECURSIVE EvDone(_, _)
+EvDone(ds, r) == IF ds = <<>> THEN <<>>
+                 ELSE (IF Head(ds).r = r THEN <<EvItem(Head(ds))>> ELSE <<>>) \o EvDone(Tail(ds), r)
+
 ObsMatches(s, t, ev) ==
   /\ NewOut(s, t) = ev.out
   /\ t.closed = ev.closed
   /\ (t.reqmsg # <<>>) = ev.partial
-  /\ Completed(s, t) = {ev.done[i].r : i \in 1..Len(ev.done)}
-  /\ Len(ev.done) = Cardinality(Completed(s, t))
-  /\ \A i \in 1..Len(ev.done) :
-        LET o == t.done[ev.done[i].r][Len(t.done[ev.done[i].r])]
-        IN /\ Len(t.done[ev.done[i].r]) = Len(s.done[ev.done[i].r]) + 1
-           /\ o.ok = ev.done[i].ok
-           /\ o.ok => o.f = ev.done[i].f
+  /\ \A i \in 1..Len(ev.done) : ev.done[i].r \in Reqs
+  /\ \A r \in Reqs : NewDone(s, t, r) = EvDone(ev.done, r)
 
 TInit == l = 1 /\ InitPred
 
